@@ -40,13 +40,15 @@ def _has_invalid_go_leaf(case):
 
 
 def _mentions_surrogate(n):
-    """some leaf or literal part below n carries a UTF-16 surrogate unit (or fromCodePoint surrogate)"""
+    """some leaf or literal part below n can contribute a UTF-16 surrogate unit: a surrogate unit / code point, an
+    astral code point (fromCodePoint) or a 4-byte UTF-8 sequence in a Go string (a later slice may split the pair)"""
     for m in _nodes(n):
         for key in ("u", "l", "m", "r"):
-            if m.get("k") in ("go", "imp") and key == "u":
-                continue
             for c in m.get(key, []) or []:
-                if 0xD800 <= c <= 0xDFFF:
+                if m.get("k") in ("go", "imp") and key == "u":
+                    if c >= 0xF0:
+                        return True
+                elif 0xD800 <= c <= 0xDFFF or c > 0xFFFF:
                     return True
     return False
 
@@ -157,11 +159,14 @@ def correspondence_c06(ctx):
         ctx.log("%s: %d disagree with S; %d unexplained; known: %s" % (
             source, len(bad), len(fresh), {k: len(v) for k, v in by_finding.items()}))
         if fresh:
-            cfg["shrink"] = True
-            cfg["max_report"] = 4
+            cfg["shrink"] = not os.environ.get("C06_FAST")
+            cfg["max_report"] = 2 if os.environ.get("C06_FAST") else 4
             vcheck.handle_mismatches(ctx, binp, recs, fresh, source)
         # one representative per known finding (smallest case text), no shrinking
-        reps = [min(ids, key=lambda i: len(json.dumps(recs[i]["case"]))) for ids in by_finding.values()]
+        done = getattr(ctx, "c06_reported", set())
+        reps = [min(ids, key=lambda i: len(json.dumps(recs[i]["case"]))) for fid, ids in by_finding.items()
+                if fid not in done]
+        ctx.c06_reported = done | set(by_finding)
         if reps:
             cfg["shrink"] = False
             cfg["max_report"] = len(reps)
@@ -203,7 +208,7 @@ CFG = {
     "prop_file": "Properties/C06.v",
     "run_modules": ["Verif.C06.Run", "Verif.C06.RunI"],
     "coq_dirs": ["C06"],
-    "n": {"quick": 4000, "thorough": 300000},
+    "n": {"quick": int(os.environ.get("C06_N", "4000")), "thorough": 300000},
     "shard": 500,
     "level": "proof",
     "stages": [correspondence_c06],
@@ -217,7 +222,10 @@ CFG = {
              "(equal by construction), 25% from a one-edit mutation of it (order comparison), 25% random trees with "
              "out-of-range arguments. The Coq model evaluates both trees (oracle). non-trivial = at least one operation node "
              "and a non-empty value; distinct = by hash of the case"),
-    "theorem_names": [],
+    "theorem_names": ["nf_closed_constructors", "nf_closed", "builder_nf_units", "nf_closed_trees", "constructors_eq_spec",
+                      "strop_eq_spec_partial", "concat_eq_spec_refuted", "strict_equals_sound", "strict_equals_partial",
+                      "strict_equals_refuted", "key_hash_agree", "compare_eq_spec", "lex_order", "export_eq_partial",
+                      "export_eq_refuted"],
     "allowed_axioms": [],
     "trusted_base": [
         "Coq 8.16.1 kernel + vm_compute (no native_compute); theorems closed under the global context (no axioms)",
@@ -230,8 +238,25 @@ CFG = {
         "the implementation is tied to the model only on the generated expression trees (correspondence), not by proof",
     ],
     "manifest": {
-        "text": "",
-        "note": "",
+        "text": ("proof: over a Gallina transcription of goja's three string representations (asciiString, unicodeString, "
+                 "importedString with its lazy scan) it is proved, for ALL strings, that every constructor, Concat, Substring, the "
+                 "unicodeStringBuilder and every expression tree over the string builtins yield a normal-form representation "
+                 "(nf_closed*, nf_closed_trees); that Concat/Substring/CharAt/Length act on the UTF-16 units (lone surrogates are "
+                 "plain units); that === implies equal units for all 9 representation pairs and is exactly unit equality for 8 of "
+                 "them; that property keys and hash input coincide iff the units coincide for all 9 pairs (0xFEFF marker "
+                 "argument); that CompareTo is the lexicographic unit order for all 9 pairs; that Export is UTF-8 of the units "
+                 "for ascii/unicode strings. 15 theorems, no axioms. Where the faithful model refutes the full statement "
+                 "(imported x imported ===, unscanned+unscanned Concat, Export of an importedString with invalid UTF-8: F19) a "
+                 "_refuted witness and a _partial theorem with an explicit guard are proved instead. The model is tied to /repo "
+                 "on every run: 4000 (quick) / 300000 (thorough) pairs of expression trees are evaluated in goja and by the "
+                 "model (vm_compute); length, every charCodeAt, Export bytes, interchangeability with a literal, and per pair "
+                 "===, ==, Object.is, <, >, Map key, object key and hash are compared with the unit-list oracle S; "
+                 "disagreements are classified against the transcription I."),
+        "note": ("trusted: Coq kernel + vm_compute; the hand transcription coq/C06/Model.v (the 0xFEFF slot is the constructor tag; "
+                 "importedString.u is a function of (s, scanned); mutation of the scanned flag is not modelled, results are proved "
+                 "independent of it); x/text case mapping is modelled only on ASCII letters (alphabet chosen case-neutral), "
+                 "encoding/json's decoder only through its effect on a quoted string; maphash by its input bytes; the Go harness "
+                 "and verif_hooks.go; the implementation is covered by correspondence on generated trees, not by proof"),
         "technique": "Rocq proof over a transcription of goja's three string representations + differential correspondence against /repo via vm_compute",
     },
 }
